@@ -149,11 +149,15 @@ func TestC28Server(t *testing.T) {
 	rec := ev.New("C28", "server")
 	defer rec.Flush()
 	s := newServerSUT()
-	budget, iter := caseBudget(2), 0
+	budget, iter, failing := caseBudget(2), 0, false
 	rapid.Check(t, func(t *rapid.T) {
-		if iter++; iter > budget {
-			return
+		if !failing { // never skip once a case has failed: rapid re-runs the function to shrink it
+			if iter++; iter > budget {
+				return
+			}
 		}
+		failing = true
+		defer func() { failing = t.Failed() }()
 		c := genCase(t, false)
 		ref := refDecide(c)
 		twoStage := (c.Req == kGet || c.Req == kHead) && ref.NeedsObject
@@ -212,11 +216,15 @@ func TestC28ServerStored(t *testing.T) {
 	}
 	defer e.Close()
 	suts := map[bool]*srvSUT{false: newStoredServerSUT(e, false), true: newStoredServerSUT(e, true)}
-	budget, iter := caseBudget(4), 0
+	budget, iter, failing := caseBudget(4), 0, false
 	rapid.Check(t, func(t *rapid.T) {
-		if iter++; iter > budget {
-			return
+		if !failing { // never skip once a case has failed: rapid re-runs the function to shrink it
+			if iter++; iter > budget {
+				return
+			}
 		}
+		failing = true
+		defer func() { failing = t.Failed() }()
 		c := genCase(t, true)
 		aclLocal := rapid.Bool().Draw(t, "acl-checker-sees-local-object")
 		ref := refDecide(c)
